@@ -3,7 +3,7 @@
 //!
 
 use core::fmt::Debug;
-use proc_macro2::{TokenStream, TokenTree};
+use proc_macro2::{Delimiter, TokenStream, TokenTree};
 use quote::ToTokens;
 use syn::{
     parse::{Parse, ParseStream},
@@ -82,10 +82,16 @@ pub fn parse_until<'a, T: Parse + Clone + Debug>(
             }
 
             // Always look the determiners up in their declared order, so overlapping
-            // operators keep resolving to the longest one.
-            let possible_group = group_determiners
-                .clone()
-                .find(|group| group.check_input(input));
+            // operators keep resolving to the longest one. An operand forwarded by a `macro_rules!`
+            // fragment (`$t:ty`, `$e:expr`) arrives as a `None`-delimited group, which `peek` looks
+            // through: an operator never starts inside of it.
+            let possible_group = if input.cursor().group(Delimiter::None).is_some() {
+                None
+            } else {
+                group_determiners
+                    .clone()
+                    .find(|group| group.check_input(input))
+            };
             possible_group
                 .map(|group| {
                     tokens.is_empty() && allow_empty_parsed
